@@ -9,10 +9,24 @@ import WebPkg.Properties.C12
   bundle from `write b = .ok (.ok out)`.
 
   Contents
-    brt_loadResponse_encodeResponse   1. the reader's `loadResponse` on one `[headers, payload]` item of the writer
-    brt_indexEntriesB2_encode         2. the reader's index loop over the writer's index map
-    brt_loadMetadata_write_b2         3. `loadMetadata` on the writer's output
-    read_write_b2                     4. the round trip (version b2)
+    1   brt_hdrLoop, brt_decode_respHeader, brt_loadResponse_encodeResponse
+                                        `loadResponse` on one `[headers, payload]` item of the writer
+    2   brt_indexLoopB2, brt_indexEntriesB2_encode, brt_parseIndex_b2
+                                        the reader's b2 index loop over the writer's index map
+    3   brt_parseMagic_*, brt_decodeSectionLengths, brt_metaTail_sections, brt_findSection, brt_step_*
+                                        prologue of `loadMetadata` and the steps of its section loop
+    4   brt_addExchanges, brt_groupByUrl_nodup, brt_finalize_b2, brt_loadResponses, brt_read_of_meta
+                                        the writer's loop / index, and from the metadata to the bundle
+    5a  brt_encodeSignatures, brt_parseSignatures_encode      signatures section (uses Proofs/CertChain)
+    5b  brt_indexLoopB1, brt_parseIndex_enc, brt_finalize_b1  b1 index, one resource per URL
+    5c  brt_loop_mid, brt_loadMetadata_write                  optional sections; `loadMetadata ∘ write`, both versions
+    5d  read_write                                            the round trip, both versions, all sections
+        RDom, brt_write_b2_urlsDistinct, brt_loadMetadata_write_b2, read_write_b2
+                                                              version b2 without signatures (corollary)
+        brt_ex_roundtrip                                      non-vacuity
+
+  `out.length < 2 ^ 63` (Go slice lengths are `int`) is needed instead of `< 2 ^ 64`: the CBOR decoder rejects byte
+  strings of 2^63 bytes or more (fix F3), so a body of that size would not be read back.
 -/
 namespace WebPkg.Bundle
 open WebPkg.Cbor WebPkg.Http
@@ -840,266 +854,12 @@ theorem brt_lengthsOf_le (sections : List (Bytes × Bytes)) (hn : ∀ s ∈ sect
       omega
   omega
 
-/-- the section loop on the writer's b2 sections `index, [primary,] responses` -/
-theorem brt_loop_b2 (url : BUrlFacts) (parseOk : Bytes → Bool) (bs PRE idx respBuf footer : Bytes)
-    (p : List (Bytes × Bytes)) (prim : Option Bytes)
-    (hp : (prim = none ∧ p = []) ∨ ∃ u x, prim = some u ∧ parseUrlSection url x = some u ∧ p = [(nPrimary, x)])
-    (hbs : bs = PRE ++ (idx ++ ((p.map (·.2)).flatten ++ (respBuf ++ footer))))
-    (hfoot : 0 < footer.length) (hlen : bs.length < 2 ^ 64) (reqs : List ReqEntry)
-    (hidx : parseIndex url .b2 idx PRE.length (brt_sos ([(nIndex, idx)] ++ p ++ [(nResponses, respBuf)])) = some reqs) :
-    sectionLoop url parseOk .b2 bs PRE.length (brt_sos ([(nIndex, idx)] ++ p ++ [(nResponses, respBuf)]))
-      (brt_sos ([(nIndex, idx)] ++ p ++ [(nResponses, respBuf)])) PRE.length
-      { version := .b2, primaryURL := none, manifestURL := none, signatures := none, requests := [] } =
-    .ok { version := .b2, primaryURL := prim, manifestURL := none, signatures := none, requests := reqs } := by
-  have hl := congrArg List.length hbs
-  simp only [List.length_append] at hl
-  have hc1 : (bs.drop PRE.length).take idx.length = idx := by
-    rw [hbs, ← List.append_assoc]
-    exact brt_drop_take PRE idx _ _ rfl
-  generalize hsos : brt_sos ([(nIndex, idx)] ++ p ++ [(nResponses, respBuf)]) = sos at *
-  rcases hp with ⟨rfl, rfl⟩ | ⟨u, x, rfl, hpu, rfl⟩
-  · have e : sos = [{ name := nIndex, length := idx.length }, { name := nResponses, length := respBuf.length }] := by
-      rw [← hsos]; rfl
-    rw [e]
-    rw [brt_step_index url parseOk .b2 bs PRE.length _ _ _ PRE.length _ reqs rfl (by dsimp only; omega) hlen
-      (by rw [← e]; dsimp only; rw [hc1]; exact hidx)]
-    rw [brt_step_responses _ _ _ _ _ _ _ _ _ _ rfl, sectionLoop]
-  · have e : sos = [{ name := nIndex, length := idx.length }, { name := nPrimary, length := x.length },
-        { name := nResponses, length := respBuf.length }] := by
-      rw [← hsos]; rfl
-    simp only [List.map_cons, List.map_nil, List.flatten_cons, List.flatten_nil, List.append_nil] at hl
-    have hc2 : (bs.drop (PRE.length + idx.length)).take x.length = x := by
-      rw [hbs]
-      have : PRE ++ (idx ++ (([(nPrimary, x)].map (·.2)).flatten ++ (respBuf ++ footer))) =
-          (PRE ++ idx) ++ x ++ (respBuf ++ footer) := by simp
-      rw [this]
-      exact brt_drop_take _ x _ _ (by simp)
-    rw [e]
-    rw [brt_step_index url parseOk .b2 bs PRE.length _ _ _ PRE.length _ reqs rfl (by dsimp only; omega) hlen
-      (by rw [← e]; dsimp only; rw [hc1]; exact hidx)]
-    dsimp only
-    rw [brt_step_primary url parseOk .b2 bs PRE.length _ _ _ _ _ u rfl (by dsimp only; omega) hlen
-      (by dsimp only; rw [hc2]; exact hpu)]
-    rw [brt_step_responses _ _ _ _ _ _ _ _ _ _ rfl, sectionLoop]
-
-/-! ### the round trip, version b2 -/
-
-/-- format constraints the reader enforces and the writer does not check -/
-structure RDom (url : BUrlFacts) (b : Bundle) : Prop where
-  /-- every resource URL parses, has no fragment and no credentials, and prints as itself -/
-  urlsOk : ∀ e ∈ b.exchanges, ∃ isAbs, url e.url = some (false, false, isAbs, e.url)
-  /-- b2: one resource per URL -/
-  urlsDistinct : (b.exchanges.map (·.url)).Nodup
-  /-- the primary URL is absolute, has no fragment and no credentials, and prints as itself -/
-  primaryOk : ∀ u, b.primaryURL = some u → url u = some (false, false, true, u)
-  /-- three-digit status codes -/
-  status : ∀ e ∈ b.exchanges, 100 ≤ e.resp.status ∧ e.resp.status ≤ 999
-  /-- ASCII header names (not pseudo headers) and values -/
-  hdrAscii : ∀ e ∈ b.exchanges, ∀ kv ∈ e.resp.headers,
-    isAscii kv.1 = true ∧ (∀ v ∈ kv.2, isAscii v = true) ∧ kv.1.head? ≠ some 58
-  /-- no signatures section -/
-  sigs : b.signatures = none
+/-! ### 4b. from the metadata to the bundle -/
 
 /-- the request the reader derives for the exchange `t.1` whose response `t.2.1` starts at offset `t.2.2` of the
     responses section, which starts at `respOff` in the file -/
 def brt_reqOf (respOff : Nat) (t : Exch × Bytes × Nat) : ReqEntry :=
   { url := t.1.url, offset := respOff + t.2.2, length := t.2.1.length }
-
-/-- (3) `loadMetadata` on the writer's output: version, primary URL, and one request per exchange, in index order
-    (`σ`), each delimiting the bytes of that exchange's encoded response -/
-theorem brt_loadMetadata_write_b2 (url : BUrlFacts) (parseOk : Bytes → Bool) (b : Bundle) (out : Bytes)
-    (hv : b.version = .b2) (hd : RDom url b) (hw : write b = .ok (.ok out)) (hlen : out.length < 2 ^ 63) :
-    ∃ (L σ : List (Exch × Bytes × Nat)) (respOff : Nat),
-      L.map (·.1) = b.exchanges ∧ σ.Perm L ∧
-      (∀ t ∈ L, encodeResponse t.1.resp = .ok t.2.1 ∧ respOff + t.2.2 + t.2.1.length ≤ out.length ∧
-        (out.drop (respOff + t.2.2)).take t.2.1.length = t.2.1) ∧
-      b.manifestURL = none ∧
-      loadMetadata url parseOk out =
-        .ok { version := .b2, primaryURL := b.primaryURL, manifestURL := none, signatures := none,
-              requests := σ.map (brt_reqOf respOff) } := by
-  obtain ⟨respBuf, entries, idx, p, m, s, hdr, h1, h2, h3, h4, h5, h6, ho⟩ := write_ok b out hw
-  rw [hv] at h2
-  have hhd : hdr = BVer.magic .b2 := by
-    unfold headOf at h6
-    rw [hv] at h6
-    injection h6 with h6
-    injection h6 with h6
-    exact h6.symm
-  have hm : m = [] ∧ b.manifestURL = none := by
-    unfold manifestSec at h4
-    cases hu : b.manifestURL with
-    | none =>
-      rw [hu] at h4
-      injection h4 with h4
-      exact ⟨h4.symm, rfl⟩
-    | some u =>
-      rw [hu] at h4
-      dsimp only at h4
-      rw [if_pos (by rw [hv]; decide)] at h4
-      cases h4
-  have hs : s = [] := by
-    unfold sigsSec at h5
-    rw [hd.sigs] at h5
-    injection h5 with h5
-    exact h5.symm
-  have hp0 : (b.primaryURL = none ∧ p = []) ∨
-      ∃ u x, b.primaryURL = some u ∧ encodeUrlSection u = .ok x ∧ p = [(nPrimary, x)] := by
-    unfold primarySec at h3
-    rw [hv] at h3
-    cases hu : b.primaryURL with
-    | none =>
-      rw [hu] at h3
-      injection h3 with h3
-      exact Or.inl ⟨rfl, h3.symm⟩
-    | some u =>
-      rw [hu] at h3
-      cases he : encodeUrlSection u with
-      | error e => simp only [he] at h3; cases h3
-      | ok x =>
-        simp only [he] at h3
-        injection h3 with h3
-        exact Or.inr ⟨u, x, rfl, he, h3.symm⟩
-  subst hhd
-  obtain ⟨rfl, hman⟩ := hm
-  subst hs
-  -- the exchanges loop
-  obtain ⟨L, tail, l1, l2, l3, l4⟩ := brt_addExchanges _ _ _ _ _ h1
-  rw [List.nil_append] at l2
-  -- the layout of the file
-  obtain ⟨footer, hfl, ho'⟩ : ∃ footer : Bytes, footer.length = 9 ∧
-      out = bodyOf (BVer.magic .b2) (sectionsOf idx respBuf p [] []) ++ footer := ⟨_, footer_length _, ho⟩
-  clear ho
-  have hsec : sectionsOf idx respBuf p [] [] = ([(nIndex, idx)] ++ p) ++ [(nResponses, respBuf)] := by
-    unfold sectionsOf; simp
-  rw [hsec] at ho'
-  unfold bodyOf at ho'
-  simp only [List.append_assoc] at ho'
-  have hpn : ∀ s ∈ p, s.1 = nPrimary := by
-    rcases hp0 with ⟨_, rfl⟩ | ⟨u, x, _, _, rfl⟩
-    · intro s hs; cases hs
-    · intro s hs; rw [List.mem_singleton.mp hs]
-  have hplen : p.length ≤ 1 := by
-    rcases hp0 with ⟨_, rfl⟩ | ⟨u, x, _, _, rfl⟩ <;> simp
-  have hnames : ∀ s ∈ [(nIndex, idx)] ++ (p ++ [(nResponses, respBuf)]),
-      s.1 = nIndex ∨ s.1 = nPrimary ∨ s.1 = nResponses := by
-    intro s hs
-    rcases List.mem_append.mp hs with hs | hs
-    · rw [List.mem_singleton.mp hs]; exact Or.inl rfl
-    · rcases List.mem_append.mp hs with hs | hs
-      · exact Or.inr (Or.inl (hpn s hs))
-      · rw [List.mem_singleton.mp hs]; exact Or.inr (Or.inr rfl)
-  have hall : ∀ s ∈ [(nIndex, idx)] ++ (p ++ [(nResponses, respBuf)]),
-      utf8Valid s.1 = true ∧ s.1.length < 2 ^ 63 := by
-    intro s hs
-    rcases hnames s hs with h | h | h <;> rw [h] <;> exact ⟨by decide +kernel, by decide⟩
-  have hndp : (([(nIndex, idx)] ++ (p ++ [(nResponses, respBuf)])).map Prod.fst).Nodup := by
-    have := sections_nodup idx respBuf p [] [] (by
-      rcases hp0 with ⟨_, rfl⟩ | ⟨u, x, _, _, rfl⟩
-      · exact Or.inl rfl
-      · exact Or.inr ⟨x, rfl⟩) (Or.inl rfl) (Or.inl rfl)
-    rw [hsec, List.append_assoc] at this
-    exact this
-  have hsl : (lengthsOf ([(nIndex, idx)] ++ (p ++ [(nResponses, respBuf)]))).length < 8192 := by
-    have := brt_lengthsOf_le ([(nIndex, idx)] ++ (p ++ [(nResponses, respBuf)])) (by
-      intro s hs
-      rcases hnames s hs with h | h | h <;> rw [h] <;> decide)
-    simp only [List.length_append, List.length_cons, List.length_nil] at this ⊢
-    omega
-  have hmeta := brt_metaTail_sections url parseOk .b2 none (BVer.magic .b2) ([(nIndex, idx)] ++ p) respBuf footer
-    (by rw [List.append_assoc]; exact hall) (by rw [List.append_assoc]; exact hndp)
-    (by rw [List.append_assoc]; exact hsl) (by rw [List.append_assoc, ← ho']; exact hlen)
-  rw [List.append_assoc, ← ho'] at hmeta
-  have hload := brt_loadMetadata_b2 url parseOk out _ (by rw [ho']; exact brt_parseMagic_b2 _)
-  rw [hmeta] at hload
-  clear hmeta
-  generalize hPRE : BVer.magic .b2 ++ (encodeBytes (lengthsOf ([(nIndex, idx)] ++ (p ++ [(nResponses, respBuf)]))) ++
-      encodeArrayHeader ([(nIndex, idx)] ++ (p ++ [(nResponses, respBuf)])).length) = PRE at hload
-  have hout : out = PRE ++ (idx ++ ((p.map (·.2)).flatten ++ (respBuf ++ footer))) := by
-    rw [ho', ← hPRE]
-    simp only [List.append_assoc, List.map_append, List.map_cons, List.map_nil, List.flatten_append,
-      List.flatten_cons, List.flatten_nil, List.append_nil, List.cons_append, List.nil_append]
-  have houtl := congrArg List.length hout
-  simp only [List.length_append] at houtl
-  -- the index
-  have hurls : (entries.map (·.url)).Nodup := by
-    rw [l2, List.map_map]
-    have : (L.map ((fun e : IndexEntry => e.url) ∘ brt_toEntry)) = (L.map (·.1)).map (·.url) := by
-      rw [List.map_map]; rfl
-    rw [this, l1]
-    exact hd.urlsDistinct
-  obtain ⟨hidxmap, hutf8⟩ := brt_finalize_b2 entries idx hurls h2
-  have hsosE : brt_sos ([(nIndex, idx)] ++ (p ++ [(nResponses, respBuf)])) =
-      brt_sos ([(nIndex, idx)] ++ p) ++ { name := nResponses, length := respBuf.length } :: [] := by
-    simp [brt_sos]
-  have hlenpre : lenSum (brt_sos ([(nIndex, idx)] ++ p)) = idx.length + (p.map (·.2)).flatten.length := by
-    rw [brt_lenSum_sos]
-    simp
-  have hinL : ∀ t ∈ L, t.2.2 + t.2.1.length ≤ respBuf.length := by
-    intro t ht
-    obtain ⟨_, _, A, B, e, eA⟩ := l4 t ht
-    have := congrArg List.length e
-    simp only [List.length_append] at this
-    omega
-  obtain ⟨σe, hσe, hpi⟩ := brt_parseIndex_b2 url idx PRE.length (brt_sos ([(nIndex, idx)] ++ p)) respBuf.length []
-    entries (by
-      intro s hs
-      obtain ⟨x, hx, rfl⟩ := List.mem_map.mp hs
-      have := hnames x (by
-        rcases List.mem_append.mp hx with hx | hx
-        · exact List.mem_append_left _ hx
-        · exact List.mem_append_right _ (List.mem_append_left _ hx))
-      have hx1 : x.1 ≠ nResponses := by
-        intro hc
-        have hnd' := hndp
-        rw [← List.append_assoc, List.map_append, List.nodup_append] at hnd'
-        exact hnd'.2.2 x.1 (List.mem_map.mpr ⟨x, hx, rfl⟩) nResponses (by simp) hc
-      exact hx1)
-    (by rw [hlenpre]; omega)
-    (by
-      intro e he
-      rw [l2] at he
-      obtain ⟨t, ht, rfl⟩ := List.mem_map.mp he
-      have hmem : t.1 ∈ b.exchanges := by rw [← l1]; exact List.mem_map.mpr ⟨t, ht, rfl⟩
-      obtain ⟨isAbs, hu⟩ := hd.urlsOk t.1 hmem
-      refine ⟨hutf8 _ (by rw [l2]; exact List.mem_map.mpr ⟨t, ht, rfl⟩), ?_, hinL t ht⟩
-      show indexUrl url t.1.url = some t.1.url
-      unfold indexUrl
-      rw [hu]
-      rfl)
-    hidxmap (by omega)
-  rw [l2] at hσe
-  obtain ⟨σ, hσ, rfl⟩ := Sxg.perm_map_exists brt_toEntry σe L hσe
-  rw [hlenpre] at hpi
-  refine ⟨L, σ, PRE.length + (idx.length + (p.map (·.2)).flatten.length), l1, hσ, ?_, hman, ?_⟩
-  · intro t ht
-    obtain ⟨a1, _, A, B, e, eA⟩ := l4 t ht
-    have := hinL t ht
-    refine ⟨a1, by omega, ?_⟩
-    have e2 : out = (PRE ++ idx ++ (p.map (·.2)).flatten ++ A) ++ t.2.1 ++ (B ++ footer) := by
-      rw [hout, e]; simp only [List.append_assoc]
-    rw [e2]
-    exact brt_drop_take _ _ _ _ (by simp only [List.length_append]; omega)
-  · rw [hload]
-    have hp : (b.primaryURL = none ∧ p = []) ∨
-        ∃ u x, b.primaryURL = some u ∧ parseUrlSection url x = some u ∧ p = [(nPrimary, x)] := by
-      rcases hp0 with h | ⟨u, x, hu, hx, hpx⟩
-      · exact Or.inl h
-      · refine Or.inr ⟨u, x, hu, ?_, hpx⟩
-        refine brt_parseUrlSection url u x hx ?_ (hd.primaryOk u hu)
-        unfold encodeUrlSection encodeText at hx
-        by_cases hval : utf8Valid u = true
-        · rw [if_pos hval] at hx
-          injection hx with hx
-          rw [hpx, ← hx] at houtl
-          simp at houtl
-          omega
-        · rw [if_neg hval] at hx; cases hx
-    have := brt_loop_b2 url parseOk out PRE idx respBuf footer p b.primaryURL hp hout (by omega) (by omega)
-      ((σ.map brt_toEntry).map (brt_mkReq (PRE.length + (idx.length + (p.map (·.2)).flatten.length))))
-      (by rw [List.append_assoc, hsosE]; exact hpi)
-    rw [List.append_assoc] at this
-    rw [this, List.map_map]
-    rfl
 
 theorem brt_loadResponses (bs : Bytes) : ∀ (reqs : List ReqEntry) (acc : List Exch),
     (∀ r ∈ reqs, ∃ resp, loadResponse r bs = .ok resp) →
@@ -1124,43 +884,42 @@ theorem brt_forall₂_urls {P : ReqEntry → Exch → Prop} {reqs : List ReqEntr
   | nil => rfl
   | cons hab _ ih => simp only [List.map_cons, ih, hab.1]
 
-/-- (4) **write → read round trip, version b2.**  Reading what `WriteTo` wrote gives back the version and the primary
-    URL, and the exchanges in index order: `σ` is a permutation of the written exchanges (nothing dropped,
-    duplicated or attributed to another URL); the `i`-th exchange read has the URL, status and body of `σ[i]` and
-    its header fields with names canonicalised from the lower-cased form and values comma-joined
-    (`Sxg.normField kv = (canonicalKey (lowerAscii kv.1), [joinComma kv.2])`), up to the order of the fields. -/
-theorem read_write_b2 (url : BUrlFacts) (parseOk : Bytes → Bool) (b : Bundle) (out : Bytes) (hv : b.version = .b2)
-    (hd : RDom url b) (hw : write b = .ok (.ok out)) (hlen : out.length < 2 ^ 63) :
-    ∃ b', read url parseOk out = .ok b' ∧ b'.version = .b2 ∧ b'.primaryURL = b.primaryURL ∧
-      b'.manifestURL = none ∧ b.manifestURL = none ∧ b'.signatures = none ∧
-      ∃ σ : List Exch, σ.Perm b.exchanges ∧ b'.exchanges.length = σ.length ∧
+/-- from the metadata to the bundle: `read` loads one response per request -/
+theorem brt_read_of_meta (url : BUrlFacts) (parseOk : Bytes → Bool) (exs : List Exch) (out : Bytes)
+    (hlen : out.length < 2 ^ 63) (hdom : ∀ e ∈ exs, brt_RespDom e.resp)
+    (L σL : List (Exch × Bytes × Nat)) (respOff : Nat) (l1 : L.map (·.1) = exs) (hσ : σL.Perm L)
+    (hL : ∀ t ∈ L, encodeResponse t.1.resp = .ok t.2.1 ∧ respOff + t.2.2 + t.2.1.length ≤ out.length ∧
+      (out.drop (respOff + t.2.2)).take t.2.1.length = t.2.1)
+    (mt : Meta) (hreq : mt.requests = σL.map (brt_reqOf respOff)) (hmeta : loadMetadata url parseOk out = .ok mt) :
+    ∃ b', read url parseOk out = .ok b' ∧ b'.version = mt.version ∧ b'.primaryURL = mt.primaryURL ∧
+      b'.manifestURL = mt.manifestURL ∧ b'.signatures = mt.signatures ∧
+      ∃ σ : List Exch, σ.Perm exs ∧ b'.exchanges.length = σ.length ∧
         b'.exchanges.map (·.url) = σ.map (·.url) ∧
         ∀ i (hi : i < σ.length), ∃ e', b'.exchanges[i]? = some e' ∧ e'.url = σ[i].url ∧
           e'.resp.status = σ[i].resp.status ∧ e'.resp.body = σ[i].resp.body ∧
           e'.resp.headers.Perm (σ[i].resp.headers.map
             fun kv => (canonicalKey (lowerAscii kv.1), [joinComma kv.2])) := by
-  obtain ⟨L, σL, respOff, l1, hσ, hL, hman, hmeta⟩ := brt_loadMetadata_write_b2 url parseOk b out hv hd hw hlen
   have hone : ∀ t ∈ σL, ∃ hs, loadResponse (brt_reqOf respOff t) out =
       .ok { status := t.1.resp.status, headers := hs, body := t.1.resp.body } ∧
       hs.Perm (t.1.resp.headers.map Sxg.normField) := by
     intro t ht
     have htL := hσ.subset ht
     obtain ⟨a1, a2, a3⟩ := hL t htL
-    have hmem : t.1 ∈ b.exchanges := by rw [← l1]; exact List.mem_map.mpr ⟨t, htL, rfl⟩
-    exact brt_loadResponse_encodeResponse t.1.resp t.2.1 t.1.url (respOff + t.2.2) out
-      ⟨hd.status t.1 hmem, hd.hdrAscii t.1 hmem⟩ a1 a3 a2 hlen
+    have hmem : t.1 ∈ exs := by rw [← l1]; exact List.mem_map.mpr ⟨t, htL, rfl⟩
+    exact brt_loadResponse_encodeResponse t.1.resp t.2.1 t.1.url (respOff + t.2.2) out (hdom t.1 hmem) a1 a3 a2 hlen
   obtain ⟨es, hlr, hf⟩ := brt_loadResponses out (σL.map (brt_reqOf respOff)) [] (by
     intro r hr
     obtain ⟨t, ht, rfl⟩ := List.mem_map.mp hr
     obtain ⟨hs, h1, _⟩ := hone t ht
     exact ⟨_, h1⟩)
   rw [List.nil_append] at hlr
-  refine ⟨{ version := .b2, primaryURL := b.primaryURL, exchanges := es, manifestURL := none, signatures := none },
-    ?_, rfl, rfl, rfl, hman, rfl, σL.map (·.1), ?_, ?_, ?_, ?_⟩
+  refine ⟨{ version := mt.version, primaryURL := mt.primaryURL, exchanges := es, manifestURL := mt.manifestURL,
+            signatures := mt.signatures },
+    ?_, rfl, rfl, rfl, rfl, σL.map (·.1), ?_, ?_, ?_, ?_⟩
   · unfold read
     rw [hmeta]
     dsimp only
-    rw [hlr]
+    rw [hreq, hlr]
   · rw [← l1]; exact hσ.map _
   · obtain ⟨h1, _⟩ := forall₂_index hf
     rw [h1]; simp
@@ -1376,7 +1135,8 @@ theorem brt_indexLoopB1 (url : BUrlFacts) (respLen respOff : Nat) (hro : respOff
     dsimp only
     rw [if_neg (by decide), C12.roundtrip_bytes [] (by decide)]
     dsimp only
-    rw [if_pos rfl, if_neg (by decide), decodeLocations, C12.roundtrip_uint _ (by omega)]
+    rw [if_pos (show ([] : Bytes).isEmpty = true from rfl), if_neg (by decide), decodeLocations,
+      C12.roundtrip_uint _ (by omega)]
     dsimp only
     rw [C12.roundtrip_uint _ (by omega)]
     dsimp only
@@ -1437,7 +1197,10 @@ theorem brt_parseIndex_enc (url : BUrlFacts) (ver : BVer) (idx : Bytes) (S : Nat
   rw [List.length_append] at hl
   refine ⟨σ, hσ, ?_⟩
   unfold parseIndex
-  rw [ho, List.length_map, hn, C12.roundtrip_mapHeader _ (by omega)]
+  have hmh : decodeMapHeader (encodeHead 5 σ.length ++
+      ((σ.map (brt_idxEv ver)).map fun e => e.1 ++ e.2).flatten) = some (σ.length, _) :=
+    C12.roundtrip_mapHeader _ (by rw [List.length_map] at hl; omega) _
+  rw [ho, List.length_map, hn, hmh]
   dsimp only
   have := brt_findSection pre { name := nResponses, length := respLen } post 0 hpre (by omega)
   dsimp only at this
@@ -1484,3 +1247,738 @@ theorem brt_finalize_v (ver : BVer) (entries : List IndexEntry) (idx : Bytes) (h
   cases ver with
   | b1 => exact brt_finalize_b1 entries idx hnd h
   | b2 => exact brt_finalize_b2 entries idx hnd h
+
+/-! ### 5c. the optional sections (primary, manifest, signatures), both versions -/
+
+/-- the effect of one optional section on the metadata -/
+def brt_eff (url : BUrlFacts) (parseOk : Bytes → Bool) (m : Meta) (s : Bytes × Bytes) : Meta :=
+  if s.1 = nPrimary then { m with primaryURL := parseUrlSection url s.2 }
+  else if s.1 = nManifest then { m with manifestURL := parseUrlSection url s.2 }
+  else { m with signatures := parseSignatures parseOk s.2 }
+
+/-- an optional section the reader accepts -/
+def brt_SecOk (url : BUrlFacts) (parseOk : Bytes → Bool) (s : Bytes × Bytes) : Prop :=
+  (s.1 = nPrimary ∧ ∃ u, parseUrlSection url s.2 = some u) ∨
+  (s.1 = nManifest ∧ ∃ u, parseUrlSection url s.2 = some u) ∨
+  (s.1 = nSignatures ∧ ∃ sg, parseSignatures parseOk s.2 = some sg)
+
+/-- the section loop over a run of optional sections -/
+theorem brt_loop_mid (url : BUrlFacts) (parseOk : Bytes → Bool) (ver : BVer) (bs : Bytes) (start : Nat)
+    (sos : List SectionOffset) (B : Bytes) (rest : List SectionOffset) (hB : 0 < B.length) (hlen : bs.length < 2 ^ 64) :
+    ∀ (mid : List (Bytes × Bytes)) (A : Bytes) (m : Meta),
+    bs = A ++ ((mid.map (·.2)).flatten ++ B) → (∀ s ∈ mid, brt_SecOk url parseOk s) →
+    sectionLoop url parseOk ver bs start sos (brt_sos mid ++ rest) A.length m =
+      sectionLoop url parseOk ver bs start sos rest (A.length + (mid.map (·.2)).flatten.length)
+        (mid.foldl (brt_eff url parseOk) m) := by
+  intro mid
+  induction mid with
+  | nil => intro A m _ _; simp [brt_sos]
+  | cons s tl ih =>
+    intro A m hbs hok
+    have hbs' : bs = (A ++ s.2) ++ ((tl.map (·.2)).flatten ++ B) := by
+      rw [hbs]; simp
+    have hl := congrArg List.length hbs'
+    simp only [List.length_append] at hl
+    have hc : (bs.drop A.length).take s.2.length = s.2 := by
+      rw [hbs']
+      exact brt_drop_take A s.2 _ _ rfl
+    have ih' := ih (A ++ s.2) (brt_eff url parseOk m s) hbs' (fun x hx => hok x (List.mem_cons_of_mem _ hx))
+    have e : brt_sos (s :: tl) ++ rest = { name := s.1, length := s.2.length } :: (brt_sos tl ++ rest) := by
+      simp [brt_sos]
+    rw [e, List.foldl_cons]
+    have hlen2 : A.length + ((s :: tl).map (·.2)).flatten.length =
+        (A ++ s.2).length + (tl.map (·.2)).flatten.length := by
+      simp only [List.map_cons, List.flatten_cons, List.length_append]; omega
+    rw [hlen2, ← ih', List.length_append]
+    rcases hok s (by simp) with ⟨hn, u, hu⟩ | ⟨hn, u, hu⟩ | ⟨hn, sg, hsg⟩
+    · rw [brt_step_primary url parseOk ver bs start sos _ _ A.length m u hn (by dsimp only; omega) hlen
+        (by dsimp only; rw [hc]; exact hu)]
+      unfold brt_eff
+      rw [if_pos hn, hu]
+    · rw [brt_step_manifest url parseOk ver bs start sos _ _ A.length m u hn (by dsimp only; omega) hlen
+        (by dsimp only; rw [hc]; exact hu)]
+      unfold brt_eff
+      rw [hn, if_neg (by decide), if_pos rfl, hu]
+    · rw [brt_step_sigs url parseOk ver bs start sos _ _ A.length m sg hn (by dsimp only; omega) hlen
+        (by dsimp only; rw [hc]; exact hsg)]
+      unfold brt_eff
+      rw [hn, if_neg (by decide), if_neg (by decide), hsg]
+
+/-- a run of sections that all set the primary URL to `v` -/
+theorem brt_foldl_primary (url : BUrlFacts) (parseOk : Bytes → Bool) (v : Option Bytes) :
+    ∀ (l : List (Bytes × Bytes)) (m : Meta), (∀ s ∈ l, s.1 = nPrimary ∧ parseUrlSection url s.2 = v) →
+    l.foldl (brt_eff url parseOk) m = { m with primaryURL := if l.isEmpty then m.primaryURL else v } := by
+  intro l
+  induction l with
+  | nil => intro m _; rfl
+  | cons s tl ih =>
+    intro m h
+    obtain ⟨h1, h2⟩ := h s (by simp)
+    rw [List.foldl_cons, ih _ (fun x hx => h x (List.mem_cons_of_mem _ hx))]
+    unfold brt_eff
+    rw [if_pos h1, h2]
+    cases tl <;> rfl
+
+theorem brt_foldl_manifest (url : BUrlFacts) (parseOk : Bytes → Bool) (v : Option Bytes) :
+    ∀ (l : List (Bytes × Bytes)) (m : Meta), (∀ s ∈ l, s.1 = nManifest ∧ parseUrlSection url s.2 = v) →
+    l.foldl (brt_eff url parseOk) m = { m with manifestURL := if l.isEmpty then m.manifestURL else v } := by
+  intro l
+  induction l with
+  | nil => intro m _; rfl
+  | cons s tl ih =>
+    intro m h
+    obtain ⟨h1, h2⟩ := h s (by simp)
+    rw [List.foldl_cons, ih _ (fun x hx => h x (List.mem_cons_of_mem _ hx))]
+    unfold brt_eff
+    rw [h1, if_neg (by decide), if_pos rfl, h2]
+    cases tl <;> rfl
+
+theorem brt_foldl_sigs (url : BUrlFacts) (parseOk : Bytes → Bool) (v : Option Sigs) :
+    ∀ (l : List (Bytes × Bytes)) (m : Meta), (∀ s ∈ l, s.1 = nSignatures ∧ parseSignatures parseOk s.2 = v) →
+    l.foldl (brt_eff url parseOk) m = { m with signatures := if l.isEmpty then m.signatures else v } := by
+  intro l
+  induction l with
+  | nil => intro m _; rfl
+  | cons s tl ih =>
+    intro m h
+    obtain ⟨h1, h2⟩ := h s (by simp)
+    rw [List.foldl_cons, ih _ (fun x hx => h x (List.mem_cons_of_mem _ hx))]
+    unfold brt_eff
+    rw [h1, if_neg (by decide), if_neg (by decide), h2]
+    cases tl <;> rfl
+
+theorem brt_primarySec (b : Bundle) (p : List (Bytes × Bytes)) (h : primarySec b = .ok p) :
+    (∀ x ∈ p, x.1 = nPrimary ∧ ∃ u, b.primaryURL = some u ∧ encodeUrlSection u = .ok x.2 ∧ b.version = .b2) ∧
+    (p = [] → b.version = .b2 → b.primaryURL = none) := by
+  unfold primarySec at h
+  cases hv : b.version with
+  | b1 =>
+    rw [hv] at h
+    injection h with h
+    subst h
+    exact ⟨fun x hx => (by cases hx), fun _ hc => (by cases hc)⟩
+  | b2 =>
+    cases hu : b.primaryURL with
+    | none =>
+      rw [hv, hu] at h
+      injection h with h
+      subst h
+      exact ⟨fun x hx => (by cases hx), fun _ _ => rfl⟩
+    | some u =>
+      rw [hv, hu] at h
+      cases he : encodeUrlSection u with
+      | error e => simp only [he] at h; cases h
+      | ok x =>
+        simp only [he] at h
+        injection h with h
+        subst h
+        refine ⟨?_, fun hc => by cases hc⟩
+        intro y hy
+        rw [List.mem_singleton.mp hy]
+        exact ⟨rfl, u, rfl, he, rfl⟩
+
+theorem brt_manifestSec (b : Bundle) (m : List (Bytes × Bytes)) (h : manifestSec b = .ok m) :
+    (∀ x ∈ m, x.1 = nManifest ∧ ∃ u, b.manifestURL = some u ∧ encodeUrlSection u = .ok x.2) ∧
+    (m = [] → b.manifestURL = none) := by
+  unfold manifestSec at h
+  cases hu : b.manifestURL with
+  | none =>
+    rw [hu] at h
+    injection h with h
+    subst h
+    exact ⟨fun x hx => (by cases hx), fun _ => rfl⟩
+  | some u =>
+    rw [hu] at h
+    dsimp only at h
+    by_cases hv : b.version ≠ .b1
+    · rw [if_pos hv] at h; cases h
+    · rw [if_neg hv] at h
+      cases he : encodeUrlSection u with
+      | error e => simp only [he] at h; cases h
+      | ok x =>
+        simp only [he] at h
+        injection h with h
+        subst h
+        refine ⟨?_, fun hc => by cases hc⟩
+        intro y hy
+        rw [List.mem_singleton.mp hy]
+        exact ⟨rfl, u, rfl, he⟩
+
+theorem brt_sigsSec (b : Bundle) (s : List (Bytes × Bytes)) (h : sigsSec b = .ok s) :
+    (∀ x ∈ s, x.1 = nSignatures ∧ ∃ sg, b.signatures = some sg ∧ encodeSignatures sg = .ok x.2) ∧
+    (s = [] → b.signatures = none) := by
+  unfold sigsSec at h
+  cases hu : b.signatures with
+  | none =>
+    rw [hu] at h
+    injection h with h
+    subst h
+    exact ⟨fun x hx => (by cases hx), fun _ => rfl⟩
+  | some sg =>
+    rw [hu] at h
+    cases he : encodeSignatures sg with
+    | error e => simp only [he] at h; cases h
+    | ok x =>
+      simp only [he] at h
+      injection h with h
+      subst h
+      refine ⟨?_, fun hc => by cases hc⟩
+      intro y hy
+      rw [List.mem_singleton.mp hy]
+      exact ⟨rfl, sg, rfl, he⟩
+
+theorem brt_headOf (b : Bundle) (hdr : Bytes) (h : headOf b = .ok (.ok hdr)) :
+    (b.version = .b2 ∧ hdr = BVer.magic .b2) ∨
+    (b.version = .b1 ∧ ∃ u t, b.primaryURL = some u ∧ encodeText u = .ok t ∧ hdr = BVer.magic .b1 ++ t) := by
+  unfold headOf at h
+  cases hv : b.version with
+  | b2 =>
+    rw [hv] at h
+    injection h with h
+    injection h with h
+    exact Or.inl ⟨rfl, h.symm⟩
+  | b1 =>
+    rw [hv] at h
+    dsimp only at h
+    cases hu : b.primaryURL with
+    | none => rw [hu] at h; cases h
+    | some u =>
+      rw [hu] at h
+      dsimp only at h
+      cases he : encodeText u with
+      | error e => simp only [he] at h; cases h
+      | ok t =>
+        simp only [he] at h
+        injection h with h
+        injection h with h
+        exact Or.inr ⟨rfl, u, t, rfl, he, h.symm⟩
+
+theorem brt_encodeText_len (u t : Bytes) (h : encodeText u = .ok t) : u.length ≤ t.length ∧ utf8Valid u = true := by
+  unfold encodeText at h
+  by_cases hval : utf8Valid u = true
+  · rw [if_pos hval] at h
+    injection h with h
+    rw [← h, List.length_append]
+    exact ⟨by omega, hval⟩
+  · rw [if_neg hval] at h; cases h
+
+/-- format constraints the reader enforces and the writer does not check (both versions, all sections) -/
+structure RDomG (url : BUrlFacts) (parseOk : Bytes → Bool) (b : Bundle) : Prop where
+  /-- every resource URL parses, has no fragment and no credentials, and prints as itself -/
+  urlsOk : ∀ e ∈ b.exchanges, ∃ isAbs, url e.url = some (false, false, isAbs, e.url)
+  /-- one resource per URL (b2: the writer refuses otherwise; b1: no variants) -/
+  urlsDistinct : (b.exchanges.map (·.url)).Nodup
+  /-- the primary URL parses and prints as itself; in the b2 `primary` section it must moreover be absolute without
+      fragment and credentials (the b1 header field is not checked by the reader) -/
+  primaryOk : ∀ u, b.primaryURL = some u → ∃ frag user abs, url u = some (frag, user, abs, u) ∧
+    (b.version = .b2 → frag = false ∧ user = false ∧ abs = true)
+  /-- the manifest URL is absolute, has no fragment and no credentials, and prints as itself -/
+  manifestOk : ∀ u, b.manifestURL = some u → url u = some (false, false, true, u)
+  /-- three-digit status codes -/
+  status : ∀ e ∈ b.exchanges, 100 ≤ e.resp.status ∧ e.resp.status ≤ 999
+  /-- ASCII header names (not pseudo headers) and values -/
+  hdrAscii : ∀ e ∈ b.exchanges, ∀ kv ∈ e.resp.headers,
+    isAscii kv.1 = true ∧ (∀ v ∈ kv.2, isAscii v = true) ∧ kv.1.head? ≠ some 58
+  /-- `x509.ParseCertificate` accepts every authority certificate -/
+  certsOk : ∀ s, b.signatures = some s → ∀ a ∈ s.authorities, parseOk a.cert = true
+  /-- `VouchedSubset.Authority` is a Go `uint64` -/
+  authIdx : ∀ s, b.signatures = some s → ∀ vs ∈ s.subsets, vs.authority < 2 ^ 64
+
+/-- (3, general) `loadMetadata` on the writer's output, both versions, with optional primary / manifest /
+    signatures sections: all metadata fields come back, and there is one request per exchange, in index order
+    (`σ`), each delimiting the bytes of that exchange's encoded response -/
+theorem brt_loadMetadata_write (url : BUrlFacts) (parseOk : Bytes → Bool) (b : Bundle) (out : Bytes)
+    (hd : RDomG url parseOk b) (hw : write b = .ok (.ok out)) (hlen : out.length < 2 ^ 63) :
+    ∃ (L σ : List (Exch × Bytes × Nat)) (respOff : Nat),
+      L.map (·.1) = b.exchanges ∧ σ.Perm L ∧
+      (∀ t ∈ L, encodeResponse t.1.resp = .ok t.2.1 ∧ respOff + t.2.2 + t.2.1.length ≤ out.length ∧
+        (out.drop (respOff + t.2.2)).take t.2.1.length = t.2.1) ∧
+      loadMetadata url parseOk out =
+        .ok { version := b.version, primaryURL := b.primaryURL, manifestURL := b.manifestURL,
+              signatures := b.signatures, requests := σ.map (brt_reqOf respOff) } := by
+  obtain ⟨respBuf, entries, idx, p, m, s, hdr, h1, h2, h3, h4, h5, h6, ho⟩ := write_ok b out hw
+  obtain ⟨hpF, hpE⟩ := brt_primarySec b p h3
+  obtain ⟨hmF, hmE⟩ := brt_manifestSec b m h4
+  obtain ⟨hsF, hsE⟩ := brt_sigsSec b s h5
+  -- the exchanges loop
+  obtain ⟨L, tail, l1, l2, l3, l4⟩ := brt_addExchanges _ _ _ _ _ h1
+  rw [List.nil_append] at l2
+  -- the layout of the file
+  obtain ⟨footer, hfl, ho'⟩ : ∃ footer : Bytes, footer.length = 9 ∧
+      out = bodyOf hdr (sectionsOf idx respBuf p m s) ++ footer := ⟨_, footer_length _, ho⟩
+  clear ho
+  have hndp0 := sections_nodup idx respBuf p m s
+    (by rcases primarySec_ok b p h3 with h | ⟨_, h⟩
+        · exact Or.inl h
+        · exact Or.inr h)
+    (by rcases manifestSec_ok b m h4 with h | ⟨_, h⟩
+        · exact Or.inl h
+        · exact Or.inr h)
+    (sigsSec_ok b s h5)
+  have hcnt : (p ++ (m ++ s)).length ≤ 3 := by
+    have a1 : p.length ≤ 1 := by
+      rcases primarySec_ok b p h3 with h | ⟨_, x, h⟩ <;> rw [h] <;> simp
+    have a2 : m.length ≤ 1 := by
+      rcases manifestSec_ok b m h4 with h | ⟨_, x, h⟩ <;> rw [h] <;> simp
+    have a3 : s.length ≤ 1 := by
+      rcases sigsSec_ok b s h5 with h | ⟨x, h⟩ <;> rw [h] <;> simp
+    simp only [List.length_append]; omega
+  have hsec : sectionsOf idx respBuf p m s = ([(nIndex, idx)] ++ (p ++ (m ++ s))) ++ [(nResponses, respBuf)] := by
+    unfold sectionsOf; simp
+  generalize hmid : p ++ (m ++ s) = mid at hsec hcnt
+  rw [hsec] at ho' hndp0
+  unfold bodyOf at ho'
+  simp only [List.append_assoc] at ho' hndp0
+  have hmidn : ∀ x ∈ mid, x.1 = nPrimary ∨ x.1 = nManifest ∨ x.1 = nSignatures := by
+    intro x hx
+    rw [← hmid] at hx
+    rcases List.mem_append.mp hx with hx | hx
+    · exact Or.inl (hpF x hx).1
+    · rcases List.mem_append.mp hx with hx | hx
+      · exact Or.inr (Or.inl (hmF x hx).1)
+      · exact Or.inr (Or.inr (hsF x hx).1)
+  have hnames : ∀ x ∈ [(nIndex, idx)] ++ (mid ++ [(nResponses, respBuf)]),
+      x.1 = nIndex ∨ x.1 = nPrimary ∨ x.1 = nManifest ∨ x.1 = nSignatures ∨ x.1 = nResponses := by
+    intro x hx
+    rcases List.mem_append.mp hx with hx | hx
+    · rw [List.mem_singleton.mp hx]; exact Or.inl rfl
+    · rcases List.mem_append.mp hx with hx | hx
+      · rcases hmidn x hx with h | h | h
+        · exact Or.inr (Or.inl h)
+        · exact Or.inr (Or.inr (Or.inl h))
+        · exact Or.inr (Or.inr (Or.inr (Or.inl h)))
+      · rw [List.mem_singleton.mp hx]; exact Or.inr (Or.inr (Or.inr (Or.inr rfl)))
+  have hall : ∀ x ∈ [(nIndex, idx)] ++ (mid ++ [(nResponses, respBuf)]),
+      utf8Valid x.1 = true ∧ x.1.length < 2 ^ 63 := by
+    intro x hx
+    rcases hnames x hx with h | h | h | h | h <;> rw [h] <;> exact ⟨by decide +kernel, by decide⟩
+  have hsl : (lengthsOf ([(nIndex, idx)] ++ (mid ++ [(nResponses, respBuf)]))).length < 8192 := by
+    have := brt_lengthsOf_le ([(nIndex, idx)] ++ (mid ++ [(nResponses, respBuf)])) (by
+      intro x hx
+      rcases hnames x hx with h | h | h | h | h <;> rw [h] <;> decide)
+    simp only [List.length_append, List.length_cons, List.length_nil] at this ⊢
+    omega
+  -- the prologue
+  have hmeta : ∀ fallback, brt_metaTail url parseOk b.version out fallback
+      (encodeBytes (lengthsOf ([(nIndex, idx)] ++ (mid ++ [(nResponses, respBuf)]))) ++
+        (encodeArrayHeader ([(nIndex, idx)] ++ (mid ++ [(nResponses, respBuf)])).length ++
+          ((([(nIndex, idx)] ++ (mid ++ [(nResponses, respBuf)])).map (·.2)).flatten ++ footer))) =
+      sectionLoop url parseOk b.version out
+        (hdr ++ (encodeBytes (lengthsOf ([(nIndex, idx)] ++ (mid ++ [(nResponses, respBuf)]))) ++
+          encodeArrayHeader ([(nIndex, idx)] ++ (mid ++ [(nResponses, respBuf)])).length)).length
+        (brt_sos ([(nIndex, idx)] ++ (mid ++ [(nResponses, respBuf)])))
+        (brt_sos ([(nIndex, idx)] ++ (mid ++ [(nResponses, respBuf)])))
+        (hdr ++ (encodeBytes (lengthsOf ([(nIndex, idx)] ++ (mid ++ [(nResponses, respBuf)]))) ++
+          encodeArrayHeader ([(nIndex, idx)] ++ (mid ++ [(nResponses, respBuf)])).length)).length
+        { version := b.version, primaryURL := fallback, manifestURL := none, signatures := none, requests := [] } := by
+    intro fallback
+    have := brt_metaTail_sections url parseOk b.version fallback hdr ([(nIndex, idx)] ++ mid) respBuf footer
+      (by rw [List.append_assoc]; exact hall) (by rw [List.append_assoc]; exact hndp0)
+      (by rw [List.append_assoc]; exact hsl) (by rw [List.append_assoc, ← ho']; exact hlen)
+    rw [List.append_assoc, ← ho'] at this
+    exact this
+  have hload : ∃ fallback, (mid = [] ∨ b.version = .b1 → fallback = b.primaryURL) ∧
+      (b.version = .b2 → fallback = none) ∧
+      loadMetadata url parseOk out = brt_metaTail url parseOk b.version out fallback
+        (encodeBytes (lengthsOf ([(nIndex, idx)] ++ (mid ++ [(nResponses, respBuf)]))) ++
+          (encodeArrayHeader ([(nIndex, idx)] ++ (mid ++ [(nResponses, respBuf)])).length ++
+            ((([(nIndex, idx)] ++ (mid ++ [(nResponses, respBuf)])).map (·.2)).flatten ++ footer))) := by
+    rcases brt_headOf b hdr h6 with ⟨hv, rfl⟩ | ⟨hv, u, t, hu, ht, rfl⟩
+    · refine ⟨none, ?_, fun _ => rfl, ?_⟩
+      · intro hc
+        rcases hc with hc | hc
+        · have : p = [] := by
+            rw [← hmid] at hc
+            exact (List.append_eq_nil_iff.mp hc).1
+          exact (hpE this hv).symm
+        · rw [hv] at hc; cases hc
+      · rw [hv]
+        exact brt_loadMetadata_b2 url parseOk out _ (by rw [ho']; exact brt_parseMagic_b2 _)
+    · refine ⟨some u, fun _ => hu.symm, fun hc => (by rw [hv] at hc; cases hc), ?_⟩
+      obtain ⟨frag, user, abs, hurl, _⟩ := hd.primaryOk u hu
+      obtain ⟨hul, _⟩ := brt_encodeText_len u t ht
+      have hl := congrArg List.length ho'
+      simp only [List.length_append] at hl
+      rw [hv]
+      refine brt_loadMetadata_b1 url parseOk out (t ++ _) u _ u frag user abs
+        (by rw [ho', List.append_assoc]; exact brt_parseMagic_b1 _)
+        (C12.roundtrip_text u t (by omega) ht _) hurl
+  obtain ⟨fallback, hfb1, hfb2, hload⟩ := hload
+  rw [hmeta] at hload
+  clear hmeta
+  generalize hPRE : hdr ++ (encodeBytes (lengthsOf ([(nIndex, idx)] ++ (mid ++ [(nResponses, respBuf)]))) ++
+      encodeArrayHeader ([(nIndex, idx)] ++ (mid ++ [(nResponses, respBuf)])).length) = PRE at hload
+  have hout : out = PRE ++ (idx ++ ((mid.map (·.2)).flatten ++ (respBuf ++ footer))) := by
+    rw [ho', ← hPRE]
+    simp only [List.append_assoc, List.map_append, List.map_cons, List.map_nil, List.flatten_append,
+      List.flatten_cons, List.flatten_nil, List.append_nil, List.cons_append, List.nil_append]
+  have houtl := congrArg List.length hout
+  simp only [List.length_append] at houtl
+  -- the index
+  have hurls : (entries.map (·.url)).Nodup := by
+    rw [l2, List.map_map]
+    have : (L.map ((fun e : IndexEntry => e.url) ∘ brt_toEntry)) = (L.map (·.1)).map (·.url) := by
+      rw [List.map_map]; rfl
+    rw [this, l1]
+    exact hd.urlsDistinct
+  obtain ⟨hidxmap, hutf8⟩ := brt_finalize_v b.version entries idx hurls h2
+  have hsosE : brt_sos ([(nIndex, idx)] ++ (mid ++ [(nResponses, respBuf)])) =
+      brt_sos ([(nIndex, idx)] ++ mid) ++ { name := nResponses, length := respBuf.length } :: [] := by
+    simp [brt_sos]
+  have hlenpre : lenSum (brt_sos ([(nIndex, idx)] ++ mid)) = idx.length + (mid.map (·.2)).flatten.length := by
+    rw [brt_lenSum_sos]
+    simp
+  have hinL : ∀ t ∈ L, t.2.2 + t.2.1.length ≤ respBuf.length := by
+    intro t ht
+    obtain ⟨_, _, A, B, e, eA⟩ := l4 t ht
+    have := congrArg List.length e
+    simp only [List.length_append] at this
+    omega
+  obtain ⟨σe, hσe, hpi⟩ := brt_parseIndex_enc url b.version idx PRE.length (brt_sos ([(nIndex, idx)] ++ mid))
+    respBuf.length [] entries (by
+      intro so hso
+      obtain ⟨x, hx, rfl⟩ := List.mem_map.mp hso
+      intro hc
+      have hnd' := hndp0
+      rw [← List.append_assoc, List.map_append, List.nodup_append] at hnd'
+      exact hnd'.2.2 x.1 (List.mem_map.mpr ⟨x, hx, rfl⟩) nResponses (by simp) hc)
+    (by rw [hlenpre]; omega)
+    (by
+      intro e he
+      rw [l2] at he
+      obtain ⟨t, ht, rfl⟩ := List.mem_map.mp he
+      have hmem : t.1 ∈ b.exchanges := by rw [← l1]; exact List.mem_map.mpr ⟨t, ht, rfl⟩
+      obtain ⟨isAbs, hu⟩ := hd.urlsOk t.1 hmem
+      refine ⟨hutf8 _ (by rw [l2]; exact List.mem_map.mpr ⟨t, ht, rfl⟩), ?_, hinL t ht⟩
+      show indexUrl url t.1.url = some t.1.url
+      unfold indexUrl
+      rw [hu]
+      rfl)
+    hidxmap (by omega)
+  rw [l2] at hσe
+  obtain ⟨σ, hσ, rfl⟩ := Sxg.perm_map_exists brt_toEntry σe L hσe
+  rw [hlenpre] at hpi
+  refine ⟨L, σ, PRE.length + (idx.length + (mid.map (·.2)).flatten.length), l1, hσ, ?_, ?_⟩
+  · intro t ht
+    obtain ⟨a1, _, A, B, e, eA⟩ := l4 t ht
+    have := hinL t ht
+    refine ⟨a1, by omega, ?_⟩
+    have e2 : out = (PRE ++ idx ++ (mid.map (·.2)).flatten ++ A) ++ t.2.1 ++ (B ++ footer) := by
+      rw [hout, e]; simp only [List.append_assoc]
+    rw [e2]
+    exact brt_drop_take _ _ _ _ (by simp only [List.length_append]; omega)
+  · -- the section loop
+    have hxlen : ∀ x ∈ mid, x.2.length < 2 ^ 63 := by
+      intro x hx
+      have := Sxg.length_le_flatten _ _ (List.mem_map.mpr ⟨x, hx, rfl⟩ : x.2 ∈ mid.map (·.2))
+      omega
+    have hpP : ∀ x ∈ p, x.1 = nPrimary ∧ parseUrlSection url x.2 = b.primaryURL := by
+      intro x hx
+      obtain ⟨hn, u, hu, he, hv⟩ := hpF x hx
+      refine ⟨hn, ?_⟩
+      obtain ⟨frag, user, abs, hurl, hb2⟩ := hd.primaryOk u hu
+      obtain ⟨rfl, rfl, rfl⟩ := hb2 hv
+      have hxl := hxlen x (by rw [← hmid]; exact List.mem_append_left _ hx)
+      have := brt_encodeText_len u x.2 he
+      rw [hu]
+      exact brt_parseUrlSection url u x.2 he (by omega) hurl
+    have hmP : ∀ x ∈ m, x.1 = nManifest ∧ parseUrlSection url x.2 = b.manifestURL := by
+      intro x hx
+      obtain ⟨hn, u, hu, he⟩ := hmF x hx
+      refine ⟨hn, ?_⟩
+      have hxl := hxlen x (by rw [← hmid]; exact List.mem_append_right _ (List.mem_append_left _ hx))
+      have := brt_encodeText_len u x.2 he
+      rw [hu]
+      exact brt_parseUrlSection url u x.2 he (by omega) (hd.manifestOk u hu)
+    have hsP : ∀ x ∈ s, x.1 = nSignatures ∧ parseSignatures parseOk x.2 = b.signatures := by
+      intro x hx
+      obtain ⟨hn, sg, hu, he⟩ := hsF x hx
+      refine ⟨hn, ?_⟩
+      have hxl := hxlen x (by rw [← hmid]; exact List.mem_append_right _ (List.mem_append_right _ hx))
+      rw [hu]
+      exact brt_parseSignatures_encode parseOk sg x.2 he hxl (hd.certsOk sg hu) (hd.authIdx sg hu)
+    have hsecok : ∀ x ∈ mid, brt_SecOk url parseOk x := by
+      intro x hx
+      rw [← hmid] at hx
+      rcases List.mem_append.mp hx with hx | hx
+      · obtain ⟨hn, u, hu, _⟩ := hpF x hx
+        exact Or.inl ⟨hn, u, by rw [(hpP x hx).2, hu]⟩
+      · rcases List.mem_append.mp hx with hx | hx
+        · obtain ⟨hn, u, hu, _⟩ := hmF x hx
+          exact Or.inr (Or.inl ⟨hn, u, by rw [(hmP x hx).2, hu]⟩)
+        · obtain ⟨hn, sg, hu, _⟩ := hsF x hx
+          exact Or.inr (Or.inr ⟨hn, sg, by rw [(hsP x hx).2, hu]⟩)
+    have hc1 : (out.drop PRE.length).take idx.length = idx := by
+      rw [hout, ← List.append_assoc]
+      exact brt_drop_take PRE idx _ _ rfl
+    rw [hload, hsosE]
+    have e : brt_sos ([(nIndex, idx)] ++ mid) ++ [({ name := nResponses, length := respBuf.length } : SectionOffset)] =
+        { name := nIndex, length := idx.length } ::
+          (brt_sos mid ++ [({ name := nResponses, length := respBuf.length } : SectionOffset)]) := by
+      simp [brt_sos]
+    rw [e] at hpi ⊢
+    rw [brt_step_index url parseOk b.version out PRE.length _ _ _ PRE.length _ _ rfl (by dsimp only; omega)
+      (by omega) (by dsimp only; rw [hc1]; exact hpi)]
+    have hmidloop := brt_loop_mid url parseOk b.version out PRE.length
+      ({ name := nIndex, length := idx.length } ::
+        (brt_sos mid ++ [({ name := nResponses, length := respBuf.length } : SectionOffset)]))
+      (respBuf ++ footer) [{ name := nResponses, length := respBuf.length }]
+      (by rw [List.length_append]; omega) (by omega) mid (PRE ++ idx)
+      { version := b.version, primaryURL := fallback, manifestURL := none, signatures := none,
+        requests := (σ.map brt_toEntry).map (brt_mkReq (PRE.length + (idx.length + (mid.map (·.2)).flatten.length))) }
+      (by rw [hout]; simp only [List.append_assoc]) hsecok
+    rw [List.length_append] at hmidloop
+    dsimp only
+    rw [hmidloop, brt_step_responses _ _ _ _ _ _ _ _ _ _ rfl, sectionLoop]
+    -- the accumulated metadata
+    rw [← hmid, List.foldl_append, List.foldl_append, brt_foldl_primary url parseOk b.primaryURL p _ hpP,
+      brt_foldl_manifest url parseOk b.manifestURL m _ hmP, brt_foldl_sigs url parseOk b.signatures s _ hsP]
+    have f1 : (if p.isEmpty = true then fallback else b.primaryURL) = b.primaryURL := by
+      cases p with
+      | nil =>
+        cases hv : b.version with
+        | b1 => exact hfb1 (Or.inr hv)
+        | b2 => rw [hfb2 hv, hpE rfl hv]; rfl
+      | cons x tl => rfl
+    have f2 : (if m.isEmpty = true then (none : Option Bytes) else b.manifestURL) = b.manifestURL := by
+      cases m with
+      | nil => rw [hmE rfl]; rfl
+      | cons x tl => rfl
+    have f3 : (if s.isEmpty = true then (none : Option Sigs) else b.signatures) = b.signatures := by
+      cases s with
+      | nil => rw [hsE rfl]; rfl
+      | cons x tl => rfl
+    dsimp only
+    rw [f1, f2, f3, List.map_map]
+    rfl
+
+
+/-! ### 5d. the round trip, both versions, all sections -/
+
+/-- **write → read round trip** for b1 (one resource per URL, i.e. no variants) and b2, with optional primary /
+    manifest / signatures sections: version, primary URL, manifest URL and the signatures section (authority
+    certificates with OCSP / SCT, vouched subsets) come back unchanged, and the exchanges come back in index order
+    as in `read_write_b2`. -/
+theorem read_write (url : BUrlFacts) (parseOk : Bytes → Bool) (b : Bundle) (out : Bytes)
+    (hd : RDomG url parseOk b) (hw : write b = .ok (.ok out)) (hlen : out.length < 2 ^ 63) :
+    ∃ b', read url parseOk out = .ok b' ∧ b'.version = b.version ∧ b'.primaryURL = b.primaryURL ∧
+      b'.manifestURL = b.manifestURL ∧ b'.signatures = b.signatures ∧
+      ∃ σ : List Exch, σ.Perm b.exchanges ∧ b'.exchanges.length = σ.length ∧
+        b'.exchanges.map (·.url) = σ.map (·.url) ∧
+        ∀ i (hi : i < σ.length), ∃ e', b'.exchanges[i]? = some e' ∧ e'.url = σ[i].url ∧
+          e'.resp.status = σ[i].resp.status ∧ e'.resp.body = σ[i].resp.body ∧
+          e'.resp.headers.Perm (σ[i].resp.headers.map
+            fun kv => (canonicalKey (lowerAscii kv.1), [joinComma kv.2])) := by
+  obtain ⟨L, σL, respOff, l1, hσ, hL, hmeta⟩ := brt_loadMetadata_write url parseOk b out hd hw hlen
+  exact brt_read_of_meta url parseOk b.exchanges out hlen
+    (fun e he => ⟨hd.status e he, hd.hdrAscii e he⟩) L σL respOff l1 hσ hL _ rfl hmeta
+
+/-- group sizes only grow while `groupByUrl` runs -/
+theorem brt_groupByUrl_mono : ∀ (es : List IndexEntry) (acc : List (Bytes × List IndexEntry))
+    (g : Bytes × List IndexEntry), g ∈ acc →
+    ∃ g' ∈ groupByUrl es acc, g'.1 = g.1 ∧ g.2.length ≤ g'.2.length := by
+  intro es
+  induction es with
+  | nil => intro acc g hg; rw [groupByUrl]; exact ⟨g, hg, rfl, Nat.le_refl _⟩
+  | cons e rest ih =>
+    intro acc g hg
+    rw [groupByUrl]
+    by_cases hc : acc.any (·.1 == e.url) = true
+    · rw [if_pos hc]
+      obtain ⟨u, es0⟩ := g
+      by_cases hu : (u == e.url) = true
+      · obtain ⟨g', hg', h1, h2⟩ := ih (acc.map fun (u, es) => if u == e.url then (u, es ++ [e]) else (u, es)) (u, es0 ++ [e])
+          (List.mem_map.mpr ⟨(u, es0), hg, by simp [hu]⟩)
+        refine ⟨g', hg', h1, ?_⟩
+        simp only [List.length_append] at h2
+        dsimp only
+        omega
+      · obtain ⟨g', hg', h1, h2⟩ := ih (acc.map fun (u, es) => if u == e.url then (u, es ++ [e]) else (u, es)) (u, es0)
+          (List.mem_map.mpr ⟨(u, es0), hg, by simp [hu]⟩)
+        exact ⟨g', hg', h1, h2⟩
+    · rw [if_neg hc]
+      exact ih _ g (List.mem_append_left _ hg)
+
+/-- if no group ends up with more than one entry, the URLs were pairwise distinct -/
+theorem brt_groupByUrl_small : ∀ (es : List IndexEntry) (acc : List (Bytes × List IndexEntry)),
+    (acc.map Prod.fst).Nodup → (∀ g ∈ acc, 1 ≤ g.2.length) → (∀ g ∈ groupByUrl es acc, g.2.length ≤ 1) →
+    (acc.map Prod.fst ++ es.map (·.url)).Nodup := by
+  intro es
+  induction es with
+  | nil => intro acc hnd _ _; simpa using hnd
+  | cons e rest ih =>
+    intro acc hnd hne hsmall
+    rw [groupByUrl] at hsmall
+    by_cases hc : acc.any (·.1 == e.url) = true
+    · exfalso
+      rw [if_pos hc] at hsmall
+      obtain ⟨g, hg, hge⟩ := List.any_eq_true.mp hc
+      obtain ⟨u, es0⟩ := g
+      have hu : (u == e.url) = true := hge
+      obtain ⟨g', hg', _, h2⟩ := brt_groupByUrl_mono rest (acc.map fun (u, es) => if u == e.url then (u, es ++ [e]) else (u, es)) (u, es0 ++ [e])
+        (List.mem_map.mpr ⟨(u, es0), hg, by simp [hu]⟩)
+      have h3 := hsmall g' hg'
+      have h4 := hne (u, es0) hg
+      simp only [List.length_append, List.length_cons, List.length_nil] at h2
+      dsimp only at h4
+      omega
+    · rw [if_neg hc] at hsmall
+      have hfresh : e.url ∉ acc.map Prod.fst := by
+        intro hm
+        obtain ⟨g, hg, hge⟩ := List.mem_map.mp hm
+        exact hc (List.any_eq_true.mpr ⟨g, hg, by simp [hge]⟩)
+      have := ih (acc ++ [(e.url, [e])])
+        (by
+          rw [List.map_append, List.nodup_append]
+          refine ⟨hnd, by simp, ?_⟩
+          intro a ha b hb hab
+          simp only [List.map_cons, List.map_nil, List.mem_singleton] at hb
+          subst hb; subst hab
+          exact hfresh ha)
+        (by
+          intro g hg
+          rcases List.mem_append.mp hg with hg | hg
+          · exact hne g hg
+          · rw [List.mem_singleton.mp hg]; exact Nat.le_refl _)
+        hsmall
+      have e2 : ((acc ++ [(e.url, [e])]).map Prod.fst ++ rest.map (·.url)) =
+          acc.map Prod.fst ++ (e :: rest).map (·.url) := by simp
+      rw [e2] at this
+      exact this
+
+/-- a b2 bundle that `WriteTo` accepted has pairwise distinct resource URLs -/
+theorem brt_write_b2_urlsDistinct (b : Bundle) (out : Bytes) (hv : b.version = .b2) (hw : write b = .ok (.ok out)) :
+    (b.exchanges.map (·.url)).Nodup := by
+  obtain ⟨respBuf, entries, idx, p, m, s, hdr, h1, h2, _⟩ := write_ok b out hw
+  rw [hv] at h2
+  obtain ⟨_, _, _, _, hurl, _⟩ := addExchanges_top b respBuf entries h1
+  obtain ⟨hg, _⟩ := finalizeIndex_b2 entries idx h2
+  have := brt_groupByUrl_small entries [] (by simp) (by intro g hg; cases hg) (fun g hgm => (hg g hgm).2)
+  rw [List.map_nil, List.nil_append, hurl] at this
+  exact this
+
+
+/-! ### the round trip, version b2 without signatures section (the case asked for first; corollary of the above) -/
+
+/-- format constraints the reader enforces and the writer does not check -/
+structure RDom (url : BUrlFacts) (b : Bundle) : Prop where
+  /-- every resource URL parses, has no fragment and no credentials, and prints as itself -/
+  urlsOk : ∀ e ∈ b.exchanges, ∃ isAbs, url e.url = some (false, false, isAbs, e.url)
+  /-- the primary URL is absolute, has no fragment and no credentials, and prints as itself -/
+  primaryOk : ∀ u, b.primaryURL = some u → url u = some (false, false, true, u)
+  /-- three-digit status codes -/
+  status : ∀ e ∈ b.exchanges, 100 ≤ e.resp.status ∧ e.resp.status ≤ 999
+  /-- ASCII header names (not pseudo headers) and values -/
+  hdrAscii : ∀ e ∈ b.exchanges, ∀ kv ∈ e.resp.headers,
+    isAscii kv.1 = true ∧ (∀ v ∈ kv.2, isAscii v = true) ∧ kv.1.head? ≠ some 58
+  /-- no signatures section -/
+  sigs : b.signatures = none
+
+
+/-- the b2 domain is an instance of the general one; a b2 bundle that was written has no manifest URL -/
+theorem brt_RDomG_of_b2 (url : BUrlFacts) (parseOk : Bytes → Bool) (b : Bundle) (out : Bytes) (hv : b.version = .b2)
+    (hd : RDom url b) (hw : write b = .ok (.ok out)) : RDomG url parseOk b ∧ b.manifestURL = none := by
+  obtain ⟨respBuf, entries, idx, p, m, s, hdr, h1, h2, h3, h4, h5, h6, ho⟩ := write_ok b out hw
+  have hman : b.manifestURL = none := by
+    rcases manifestSec_ok b m h4 with hm | ⟨hm, _⟩
+    · exact (brt_manifestSec b m h4).2 hm
+    · rw [hv] at hm; cases hm
+  refine ⟨⟨hd.urlsOk, brt_write_b2_urlsDistinct b out hv hw, ?_, ?_, hd.status, hd.hdrAscii, ?_, ?_⟩, hman⟩
+  · intro u hu
+    exact ⟨false, false, true, hd.primaryOk u hu, fun _ => ⟨rfl, rfl, rfl⟩⟩
+  · intro u hu; rw [hman] at hu; cases hu
+  · intro s hs; rw [hd.sigs] at hs; cases hs
+  · intro s hs; rw [hd.sigs] at hs; cases hs
+
+/-- (3) `loadMetadata` on the writer's output: version, primary URL, and one request per exchange, in index order
+    (`σ`), each delimiting the bytes of that exchange's encoded response -/
+theorem brt_loadMetadata_write_b2 (url : BUrlFacts) (parseOk : Bytes → Bool) (b : Bundle) (out : Bytes)
+    (hv : b.version = .b2) (hd : RDom url b) (hw : write b = .ok (.ok out)) (hlen : out.length < 2 ^ 63) :
+    ∃ (L σ : List (Exch × Bytes × Nat)) (respOff : Nat),
+      L.map (·.1) = b.exchanges ∧ σ.Perm L ∧
+      (∀ t ∈ L, encodeResponse t.1.resp = .ok t.2.1 ∧ respOff + t.2.2 + t.2.1.length ≤ out.length ∧
+        (out.drop (respOff + t.2.2)).take t.2.1.length = t.2.1) ∧
+      b.manifestURL = none ∧
+      loadMetadata url parseOk out =
+        .ok { version := .b2, primaryURL := b.primaryURL, manifestURL := none, signatures := none,
+              requests := σ.map (brt_reqOf respOff) } := by
+  obtain ⟨hg, hman⟩ := brt_RDomG_of_b2 url parseOk b out hv hd hw
+  obtain ⟨L, σ, respOff, l1, hσ, hL, hmeta⟩ := brt_loadMetadata_write url parseOk b out hg hw hlen
+  rw [hv, hman, hd.sigs] at hmeta
+  exact ⟨L, σ, respOff, l1, hσ, hL, hman, hmeta⟩
+
+/-- (4) **write → read round trip, version b2 (no signatures section).**  Reading what `WriteTo` wrote gives back the
+    version and the primary URL, and the exchanges in index order: `σ` is a permutation of the written exchanges
+    (nothing dropped, duplicated or attributed to another URL); the `i`-th exchange read has the URL, status and
+    body of `σ[i]` and its header fields with names canonicalised from the lower-cased form and values comma-joined
+    (`Sxg.normField kv = (canonicalKey (lowerAscii kv.1), [joinComma kv.2])`), up to the order of the fields. -/
+theorem read_write_b2 (url : BUrlFacts) (parseOk : Bytes → Bool) (b : Bundle) (out : Bytes) (hv : b.version = .b2)
+    (hd : RDom url b) (hw : write b = .ok (.ok out)) (hlen : out.length < 2 ^ 63) :
+    ∃ b', read url parseOk out = .ok b' ∧ b'.version = .b2 ∧ b'.primaryURL = b.primaryURL ∧
+      b'.manifestURL = none ∧ b.manifestURL = none ∧ b'.signatures = none ∧
+      ∃ σ : List Exch, σ.Perm b.exchanges ∧ b'.exchanges.length = σ.length ∧
+        b'.exchanges.map (·.url) = σ.map (·.url) ∧
+        ∀ i (hi : i < σ.length), ∃ e', b'.exchanges[i]? = some e' ∧ e'.url = σ[i].url ∧
+          e'.resp.status = σ[i].resp.status ∧ e'.resp.body = σ[i].resp.body ∧
+          e'.resp.headers.Perm (σ[i].resp.headers.map
+            fun kv => (canonicalKey (lowerAscii kv.1), [joinComma kv.2])) := by
+  obtain ⟨L, σL, respOff, l1, hσ, hL, hman, hmeta⟩ := brt_loadMetadata_write_b2 url parseOk b out hv hd hw hlen
+  obtain ⟨b', h1, h2, h3, h4, h5, h6⟩ := brt_read_of_meta url parseOk b.exchanges out hlen
+    (fun e he => ⟨hd.status e he, hd.hdrAscii e he⟩) L σL respOff l1 hσ hL _ rfl hmeta
+  exact ⟨b', h1, h2, h3, h4, hman, h5, h6⟩
+
+/-! ### non-vacuity: a bundle with one resource meets all hypotheses of `read_write_b2` -/
+
+theorem brt_encodeMap_single (e : Entry) : encodeMap [e] = .ok (encodeMapHeader 1 ++ (e.1 ++ e.2)) := by
+  unfold encodeMap sortEntries
+  simp [hasAdjDup]
+
+def brt_exUrl : Bytes := [104, 116, 116, 112, 115, 58, 47, 47, 97, 46, 98, 47]   -- "https://a.b/"
+def brt_exResp : Resp := { status := 200, headers := [], body := [104, 105] }
+def brt_exBundle : Bundle :=
+  { version := .b2, primaryURL := some brt_exUrl, exchanges := [{ url := brt_exUrl, resp := brt_exResp }],
+    manifestURL := none, signatures := none }
+
+theorem brt_ex_write : ∃ out, write brt_exBundle = .ok (.ok out) ∧ out.length < 2 ^ 63 := by
+  have hr : encodeResponse brt_exResp = .ok (encodeArrayHeader 2 ++ encodeBytes (encodeMapHeader 1 ++
+      (encodeBytes Sxg.keyStatus ++ encodeBytes (SH.formatInt 200))) ++ encodeBytes [104, 105]) := by
+    unfold encodeResponse encodeRespHeader
+    simp only [brt_exResp, Sxg.headerEntries, List.map_nil, brt_encodeMap_single]
+    rfl
+  have hu : utf8Valid brt_exUrl = true := by decide +kernel
+  rw [write_eq]
+  simp only [brt_exBundle, addExchanges, hr]
+  unfold finalizeIndex
+  simp only [groupByUrl, List.any_nil, List.nil_append, List.any_cons, hu, Bool.not_true, Bool.or_false,
+    Bool.false_eq_true, if_false, List.length_cons, List.length_nil, List.map_cons, List.map_nil, brt_encodeMap_single]
+  rw [if_neg (by decide)]
+  dsimp only
+  unfold writeTail primarySec manifestSec sigsSec headOf encodeUrlSection encodeText
+  simp only [hu, if_true]
+  exact ⟨_, rfl, by decide +kernel⟩
+
+theorem brt_ex_dom : RDom (fun s => some (false, false, true, s)) brt_exBundle where
+  urlsOk := fun _ _ => ⟨true, rfl⟩
+  primaryOk := fun _ _ => rfl
+  status := by
+    intro e he
+    rw [List.mem_singleton.mp he]
+    decide
+  hdrAscii := by
+    intro e he kv hkv
+    rw [List.mem_singleton.mp he] at hkv
+    cases hkv
+  sigs := rfl
+
+/-- the round trip theorem applies to it -/
+theorem brt_ex_roundtrip : ∃ out b', write brt_exBundle = .ok (.ok out) ∧
+    read (fun s => some (false, false, true, s)) (fun _ => true) out = .ok b' ∧
+    b'.primaryURL = some brt_exUrl ∧ b'.exchanges.map (·.url) = [brt_exUrl] := by
+  obtain ⟨out, hw, hl⟩ := brt_ex_write
+  obtain ⟨b', h1, _, h3, _, _, _, σ, hσ, _, hu, _⟩ :=
+    read_write_b2 _ (fun _ => true) brt_exBundle out rfl brt_ex_dom hw hl
+  refine ⟨out, b', hw, h1, h3, ?_⟩
+  rw [hu, List.perm_singleton.mp hσ]
+  rfl
+
+end WebPkg.Bundle
